@@ -12,6 +12,7 @@
 -/
 import PV.Model.RekeyFlight
 import PV.Model.RekeyLock
+import PV.Model.SendGate
 import PV.Generated.C11
 namespace PV.Props.C11
 open PV.RekeyFlight
@@ -437,5 +438,122 @@ theorem transport_thread_sites :
 example : Generated.C11.handlers.lookup "_window_adjust" = some true := by decide
 
 end Lock
+
+/-! ## the send gate at step granularity: `_send_user_message` against `_send_kex_init` / `_parse_newkeys` -/
+
+section Gate
+open PV.SendGate
+
+/-- control invariant: who holds `clear_to_send_lock`, when the event is cleared, and — the point of the re-check
+under the lock — a user thread that is about to write has seen the event set *while holding the lock* -/
+def GInv (c : Ctrl) : Bool :=
+  (decide (c.lock = .user) == (c.upc == .locked || c.upc == .sending || c.upc == .sent)) &&
+  (decide (c.lock = .kex) == (c.kpc == .haveLock || c.kpc == .cleared || c.kpc == .setLock || c.kpc == .setDone)) &&
+  ((!c.event) == (c.kpc == .cleared || c.kpc == .released || c.kpc == .sentKexinit || c.kpc == .sentKex ||
+      c.kpc == .sentNewkeys || c.kpc == .setLock)) &&
+  (!(c.upc == .sending) || c.event)
+
+private theorem ginv_user (c : Ctrl) (more : Bool) (h : GInv c = true) : GInv (cuser true more c) = true := by
+  obtain ⟨lock, ev, u, k⟩ := c
+  cases lock <;> cases ev <;> cases u <;> cases k <;> cases more <;> revert h <;> decide
+
+private theorem ginv_kex (c : Ctrl) (h : GInv c = true) : GInv (ckex c) = true := by
+  obtain ⟨lock, ev, u, k⟩ := c
+  cases lock <;> cases ev <;> cases u <;> cases k <;> revert h <;> decide
+
+private theorem ginv_safe (c : Ctrl) (h : GInv c = true) (hs : c.upc = .sending) : c.kpc = .idle ∨ c.kpc = .done := by
+  obtain ⟨lock, ev, u, k⟩ := c
+  cases lock <;> cases ev <;> cases u <;> cases k <;> revert h hs <;> decide
+
+/-- the wire is: user data, then the exchange's messages so far, then — only once the exchange is over — user
+data again -/
+def WInv (s : SendGate.St) : Prop :=
+  ∃ pre post, s.wire = pre ++ kexPart s.c.kpc ++ post ∧ (∀ t ∈ pre, t = 94) ∧ (∀ t ∈ post, t = 94) ∧
+    (post ≠ [] → s.c.kpc = .done)
+
+private theorem kexPart_step (s : SendGate.St) :
+    kexPart (ckex s.c).kpc = kexPart s.c.kpc ++ written s .kex ∧ (s.c.kpc = .done → (ckex s.c).kpc = .done) := by
+  obtain ⟨r, ⟨lock, ev, u, k⟩, td, w⟩ := s
+  cases k <;> cases lock <;> simp [ckex, kexPart, written]
+
+private theorem gate_step (s : SendGate.St) (t : SendGate.Tid) (hr : s.recheck = true) (hg : GInv s.c = true)
+    (hw : WInv s) : GInv (SendGate.step s t).c = true ∧ WInv (SendGate.step s t) ∧ (SendGate.step s t).recheck = true := by
+  obtain ⟨pre, post, hwire, hpre, hpost, hdone⟩ := hw
+  cases t with
+  | user =>
+    refine ⟨by simpa [SendGate.step, hr] using ginv_user s.c _ hg, ?_, by simpa [SendGate.step] using hr⟩
+    have hk : (cuser s.recheck (decide (s.todo > 1)) s.c).kpc = s.c.kpc := by
+      obtain ⟨lock, ev, u, k⟩ := s.c
+      cases u <;> simp [cuser] <;> (repeat' split) <;> rfl
+    by_cases hs : s.c.upc = .sending
+    · rcases ginv_safe s.c hg hs with hi | hd
+      · have hp : post = [] := by
+          cases post with
+          | nil => rfl
+          | cons a as => have := hdone (by simp); simp [hi] at this
+        refine ⟨pre ++ [94], [], ?_, ?_, by simp, by simp⟩
+        · simp [SendGate.step, written, hs, hk, hwire, hp, hi, kexPart]
+        · intro t ht; simp at ht; rcases ht with h | h
+          · exact hpre t h
+          · exact h
+      · refine ⟨pre, post ++ [94], ?_, hpre, ?_, fun _ => by simp [SendGate.step, hk, hd]⟩
+        · simp [SendGate.step, written, hs, hk, hwire]
+        · intro t ht; simp at ht; rcases ht with h | h
+          · exact hpost t h
+          · exact h
+    · exact ⟨pre, post, by simp [SendGate.step, written, hs, hk, hwire], hpre, hpost,
+        fun h => by simpa [SendGate.step, hk] using hdone h⟩
+  | kex =>
+    refine ⟨by simpa [SendGate.step] using ginv_kex s.c hg, ?_, by simpa [SendGate.step] using hr⟩
+    obtain ⟨h1, h2⟩ := kexPart_step s
+    by_cases hd : s.c.kpc = .done
+    · refine ⟨pre, post, ?_, hpre, hpost, fun _ => by simpa [SendGate.step] using h2 hd⟩
+      have hwn : written s .kex = [] := by simp [written, hd]
+      have : (ckex s.c).kpc = .done := h2 hd
+      simp [SendGate.step, hwn, this, hwire, hd]
+    · have hp : post = [] := by
+        cases post with
+        | nil => rfl
+        | cons a as => exact absurd (hdone (by simp)) hd
+      refine ⟨pre, [], ?_, hpre, by simp, by simp⟩
+      simp only [SendGate.step, List.append_nil]
+      rw [h1, hwire, hp]
+      simp
+
+/-- **The send gate, every interleaving.**  With the re-check of the event under `clear_to_send_lock`, for any number
+of user messages and any schedule of the user thread's and the exchange's steps: every user message is on the wire
+either before our KEXINIT or after our NEWKEYS — between them only the exchange's own messages. -/
+theorem send_gate_window_clean (n : Nat) (sched : List SendGate.Tid) :
+    WInv (SendGate.run (SendGate.init true n) sched) := by
+  have : ∀ s : SendGate.St, s.recheck = true → GInv s.c = true → WInv s →
+      WInv (SendGate.run s sched) := by
+    induction sched with
+    | nil => intro s _ _ h; exact h
+    | cons t ts ih =>
+      intro s hr hg hw
+      obtain ⟨a, b, c⟩ := gate_step s t hr hg hw
+      exact ih _ c a b
+  refine this _ rfl ?_ ⟨[], [], by simp [SendGate.init, kexPart], by simp, by simp, by simp⟩
+  by_cases h : n = 0 <;> simp [SendGate.init, h, GInv]
+
+/-- **Witness for the variant without the re-check** (trusting the result of `wait()`): the user thread returns
+from `wait()`, the exchange starts and KEXINIT goes out, then the user thread takes the lock and writes — a
+CHANNEL_DATA between our KEXINIT and our NEWKEYS. -/
+theorem send_gate_no_recheck_witness :
+    (SendGate.run (SendGate.init false 1)
+      [.user, .kex, .kex, .kex, .kex, .user, .user, .kex, .kex]).wire = [20, 94, 30, 21] := by decide
+
+/-- the same schedule with the re-check: the message waits for the end of the exchange -/
+example : (SendGate.run (SendGate.init true 1)
+    [.user, .kex, .kex, .kex, .kex, .user, .user, .kex, .kex, .kex, .kex, .kex, .user, .user, .user, .user, .user]).wire
+      = [20, 30, 21, 94] := by decide
+
+/-- **The tree under test** (AST of `Transport._send_user_message` / `_send_kex_init`, read on every run): the
+`_send_message` call of `_send_user_message` is reached only through an `is_set()` test made while
+`clear_to_send_lock` is held, and `_send_kex_init` clears the event under that lock before it writes KEXINIT. -/
+theorem send_gate_facts :
+    Generated.C11.sendRechecksUnderLock = true ∧ Generated.C11.kexInitClearsBeforeWrite = true := by decide
+
+end Gate
 
 end PV.Props.C11
